@@ -97,6 +97,7 @@ struct FenvEngine : Engine {
     std::string prop, tier;
     std::vector<OpRef> ops;          // ops in focus for this property
     std::vector<OpRef> all_ops;
+    std::vector<const AOp*> api;     // broad public-API slice (environment preservation / independence only)
     std::vector<std::string> types;
     std::vector<std::uint32_t> L32; std::vector<std::uint64_t> L64;
     unsigned sweep_steps = 32;
@@ -117,6 +118,11 @@ struct FenvEngine : Engine {
             if (std::find(types.begin(), types.end(), tab[i].type) == types.end()) types.push_back(tab[i].type);
         }
         if (ops.empty()) return "no ops for property " + prop;
+        if (prop == "C11" || prop.empty()) {
+            typedef const AOp* (*PF)(std::size_t*);
+            PF parts[] = {fenv_api_part0, fenv_api_part1, fenv_api_part2, fenv_api_part3, fenv_api_part4, fenv_api_part5, fenv_api_part6, fenv_api_part7, fenv_api_part8, fenv_api_part9};
+            for (PF f : parts) { std::size_t k; const AOp* t_ = f(&k); for (std::size_t i = 0; i < k; ++i) api.push_back(&t_[i]); }
+        }
         bool dense = tier == "thorough";
         L32 = stratified<std::uint32_t>(dense); L64 = stratified<std::uint64_t>(dense);
         // reference self-check: libm vs integer model in all four modes (a libm surprise is a
@@ -142,7 +148,20 @@ struct FenvEngine : Engine {
         return "";
     }
 
-    std::uint64_t sweep_count() override { return sweep_total; }
+    static const unsigned API_STEPS = 32;
+    std::uint64_t api_sweep_plans() const { return api.empty() ? 0 : (api.size() * 8 + API_STEPS - 1) / API_STEPS; }
+    std::uint64_t sweep_count() override { return sweep_total + api_sweep_plans(); }
+    // every (type, public operation) once under each of the 4 rounding modes x {FTZ/DAZ off, on}
+    void api_sweep_plan(std::uint64_t idx, Plan& out) {
+        out.head.op = "plan"; out.head.set("engine", "fenv"); out.head.set("prop", prop); out.head.set("kind", "sweep_api");
+        int last_env = -1;
+        for (unsigned s = 0; s < API_STEPS; ++s) {
+            std::uint64_t k = idx * API_STEPS + s; if (k >= api.size() * 8) break;
+            const AOp* o = api[(std::size_t)(k / 8)]; int env = (int)(k % 8);
+            if (env != last_env) { Step e; e.op = "setenv"; e.set("rc", env & 3); e.set("ftz", env >> 2); e.set("daz", env >> 2); out.steps.push_back(e); last_env = env; }
+            Step c; c.op = "api"; c.set("fn", o->fn); c.set("type", o->type); c.setu("ta", k * 2 + 1); c.setu("tb", k * 7 + 3); out.steps.push_back(c);
+        }
+    }
 
     static std::string hexlist32(const std::vector<std::uint64_t>& v) { return ""; }
 
@@ -151,6 +170,7 @@ struct FenvEngine : Engine {
     }
 
     void sweep_plan(std::uint64_t idx, Plan& out) override {
+        if (idx >= sweep_total) { api_sweep_plan(idx - sweep_total, out); return; }
         // find segment
         std::size_t lo = 0, hi = segs.size();
         while (hi - lo > 1) { std::size_t mid = (lo + hi) / 2; if (segs[mid].first <= idx) lo = mid; else hi = mid; }
@@ -211,6 +231,10 @@ struct FenvEngine : Engine {
                 Step e; e.op = "setenv"; e.set("rc", (int)r.below(4));
                 e.set("ftz", ftzdaz ? (int)r.below(2) : 0); e.set("daz", ftzdaz ? (int)r.below(2) : 0);
                 out.steps.push_back(e); if (s) continue;
+            }
+            if (!api.empty() && r.chance(1, 4)) {
+                const AOp* ao = api[r.below(api.size())];
+                Step c; c.op = "api"; c.set("fn", ao->fn); c.set("type", ao->type); c.setu("ta", r.below(1u << 30)); c.setu("tb", r.below(1u << 30)); out.steps.push_back(c); continue;
             }
             const OpRef& o = *pool[r.below(pool.size())];
             Step c; c.op = "call"; c.set("fn", o.op->fn); c.set("type", o.op->type);
@@ -308,6 +332,60 @@ struct FenvEngine : Engine {
         }
     }
 
+    const AOp* find_api(const std::string& type, const std::string& fn) { for (auto o : api) if (type == o->type && fn == o->fn) return o; return nullptr; }
+
+    // operand bytes for the API slice: floats come from the stratified list (so that NaN, inf, subnormals and
+    // integers all occur), integers are tag bytes with some lanes forced to 0 / all-ones / sign bit
+    void api_operand(const AOp* o, std::uint64_t tag, unsigned char* out) {
+        for (unsigned l = 0; l < o->width; ++l) {
+            std::uint64_t h = splitmix_of(tag * 64 + l);
+            if (o->is_float) { if (o->elem == 4) { std::uint32_t v = L32[h % L32.size()]; std::memcpy(out + l * 4, &v, 4); } else { std::uint64_t v = L64[h % L64.size()]; std::memcpy(out + l * 8, &v, 8); } }
+            else { std::uint64_t v = (h & 7) == 0 ? 0 : (h & 7) == 1 ? ~0ull : (h & 7) == 2 ? (1ull << (o->elem * 8 - 1)) : h >> 3; std::memcpy(out + l * o->elem, &v, o->elem); }
+        }
+    }
+    static std::uint64_t splitmix_of(std::uint64_t x) { return splitmix64(x); }
+
+    void api_step(const Step& st, int stepno, const Env& env, RunResult& rr, Stats& stats) {
+        const AOp* o = find_api(st.str("type"), st.str("fn"));
+        if (!o) { rr.log.linef("%d api skip (type/fn not in this configuration)", stepno); return; }
+        alignas(64) unsigned char a[64] = {0}, b[64] = {0}, out[192], out0[192];
+        api_operand(o, st.unum("ta"), a); api_operand(o, st.unum("tb"), b);
+        std::memset(out, 0, sizeof out); std::memset(out0, 0, sizeof out0);
+        apply_env(env);
+        const std::uint32_t mx0 = get_mxcsr(); const std::uint16_t cw0 = get_cw();
+        asm volatile("" ::: "memory");
+        o->call(a, b, out);
+        asm volatile("" ::: "memory");
+        const std::uint32_t mx1 = get_mxcsr(); const std::uint16_t cw1 = get_cw();
+        apply_env(Env());
+        o->call(a, b, out0);                 // same call under the default environment
+        const std::uint32_t mx2 = get_mxcsr(); const std::uint16_t cw2 = get_cw();
+        apply_env(Env());
+        char envs[48]; std::snprintf(envs, sizeof envs, "rc=%s", RCNAME[env.rc]);
+        rr.log.linef("%d api %s %s rc=%d ftz=%d daz=%d -> %016llx mx=%04x->%04x cw=%04x->%04x", stepno, o->fn, o->type, env.rc, env.ftz, env.daz,
+                     (unsigned long long)fnv1a(out, sizeof out), mx0 & MX_CTRL, mx1 & MX_CTRL, cw0, cw1);
+        stats.probes["env_checked_api_calls"]++;
+        if ((mx0 & MX_CTRL) != (mx1 & MX_CTRL) || cw0 != cw1) {
+            char d[200]; std::snprintf(d, sizeof d, "%s(%s): MXCSR control %04x -> %04x, x87 CW %04x -> %04x", o->fn, o->type, mx0 & MX_CTRL, mx1 & MX_CTRL, cw0, cw1);
+            rr.violate("C11", stepno, {"C11", "env_changed", std::string("api_") + o->fn, o->type, envs}, d);
+        } else if ((mx2 & MX_CTRL) != MX_DEFAULT || cw2 != CW_DEFAULT) {
+            char d[200]; std::snprintf(d, sizeof d, "%s(%s) under the default environment: MXCSR control -> %04x, x87 CW -> %04x", o->fn, o->type, mx2 & MX_CTRL, cw2);
+            rr.violate("C11", stepno, {"C11", "env_changed", std::string("api_") + o->fn, o->type, "rc=nearest"}, d);
+        }
+        {
+            std::string tup = std::string("api|") + o->type + "|" + o->fn + "|" + std::to_string(env.rc) + "|" + std::to_string(env.ftz * 2 + env.daz);
+            stats.case_seen(tup, env.rc != 0 || env.ftz || env.daz);
+        }
+        // environment-independence (observation only, never a violation of a claimed property)
+        if (std::memcmp(out, out0, sizeof out)) {
+            if (o->fp_dependent_ok) stats.obs["fp_result_differs_under_non_default_env_as_expected"]++;
+            else {
+                stats.obs[o->is_float ? "float_result_depends_on_ambient_fp_env" : "INTEGER_result_depends_on_ambient_fp_env"]++;
+                if (rr.observations.size() < 4) rr.observations.push_back(std::string(o->fn) + "(" + o->type + ") gives a different result under " + envs + (env.ftz ? " ftz" : "") + (env.daz ? " daz" : "") + " than under the default environment");
+            }
+        }
+    }
+
     void execute(const Plan& plan, RunResult& rr, Stats& stats) override {
         Env env;
         rr.log.line(plan.head.text());
@@ -324,6 +402,8 @@ struct FenvEngine : Engine {
                 if (!o) { rr.log.linef("%d skip (type/fn not in this configuration)", stepno); ++stepno; rr.steps_done = stepno; continue; }
                 if (o->op->elem == 4) check_call<std::uint32_t>(*o, st, stepno, env, rr, stats);
                 else check_call<std::uint64_t>(*o, st, stepno, env, rr, stats);
+            } else if (st.op == "api") {
+                api_step(st, stepno, env, rr, stats);
             } else { rr.harness_error = "unknown step op " + st.op; return; }
             ++stepno; rr.steps_done = stepno;
             if (rr.v.set) break;
